@@ -82,6 +82,9 @@ Proof.
   - apply IH; [assumption|intro H; apply Hx; right; exact H].
 Qed.
 
+Lemma ebind_done {A B} (r : eres A) (f : A -> eres B) b : ebind r f = Done b -> exists a, r = Done a /\ f a = Done b.
+Proof. destruct r; cbn; intros H; try discriminate. exists a. split; [reflexivity|exact H]. Qed.
+
 Section Prims.
 Variable E : env.
 Variable docs : list (string * json).
@@ -580,3 +583,262 @@ Theorem resolve_root_irrelevant s rroot rroot' ref base kind r :
   resolve E docs cwd live s rroot ref base kind = resolve E docs cwd live s rroot' ref base kind.
 Proof. intros Hr Hl. unfold resolve. rewrite Hr. cbn [pbind]. rewrite Hl. reflexivity. Qed.
 End ResolveSpec.
+
+(* ---------- errors are never invented and never swallowed by the traversal (C08) ---------- *)
+Section FoldFail.
+Variable W : json -> st -> eres (st * json).
+
+Lemma fold_elems_failed : forall l s out sf, fold_elems W l s out = Failed sf -> exists x s', In x l /\ W x s' = Failed sf.
+Proof.
+  induction l as [|x r IH]; intros s out sf H; cbn [fold_elems] in H; [discriminate|].
+  destruct x; try (destruct (IH _ _ _ H) as [y [s' [Hy Hw]]]; exists y, s'; split; [right; exact Hy|exact Hw]).
+  destruct (W (JObj m) s) as [[s1 x1]|sf1| |] eqn:Ew; try discriminate.
+  - destruct (IH _ _ _ H) as [y [s' [Hy Hw]]]. exists y, s'. split; [right; exact Hy|exact Hw].
+  - inversion H; subst. exists (JObj m), s. split; [left; reflexivity|exact Ew].
+Qed.
+
+Lemma fold_values_failed : forall l s out sf, fold_values W l s out = Failed sf -> exists k x s', In (k, x) l /\ W x s' = Failed sf.
+Proof.
+  induction l as [|[k x] r IH]; intros s out sf H; cbn [fold_values] in H; [discriminate|].
+  destruct x; try (destruct (IH _ _ _ H) as [k' [y [s' [Hy Hw]]]]; exists k', y, s'; split; [right; exact Hy|exact Hw]).
+  destruct (W (JObj m) s) as [[s1 x1]|sf1| |] eqn:Ew; try discriminate.
+  - destruct (IH _ _ _ H) as [k' [y [s' [Hy Hw]]]]. exists k', y, s'. split; [right; exact Hy|exact Hw].
+  - inversion H; subst. exists k, (JObj m), s. split; [left; reflexivity|exact Ew].
+Qed.
+
+Lemma child_step_failed k v s sf : child_step W k v s = Failed sf -> exists x s', child_of x v /\ W x s' = Failed sf.
+Proof.
+  unfold child_step. intros H.
+  destruct (mem_str k ["definitions"; "properties"; "patternProperties"; "dependencies"]).
+  { destruct v; try discriminate. destruct (fold_values W m s []) as [[s1 vm]|sf1| |] eqn:Ef; try discriminate.
+    inversion H; subst. destruct (fold_values_failed _ _ _ _ Ef) as [k' [x [s' [Hin Hw]]]]. exists x, s'. split; [eapply co_value; exact Hin|exact Hw]. }
+  destruct (mem_str k ["allOf"; "anyOf"; "oneOf"]).
+  { destruct v; try discriminate. destruct (fold_elems W l s []) as [[s1 vm]|sf1| |] eqn:Ef; try discriminate.
+    inversion H; subst. destruct (fold_elems_failed _ _ _ _ Ef) as [x [s' [Hin Hw]]]. exists x, s'. split; [apply co_elem; exact Hin|exact Hw]. }
+  destruct (String.eqb k "items").
+  { destruct v; try discriminate.
+    - destruct (fold_elems W l s []) as [[s1 vm]|sf1| |] eqn:Ef; try discriminate.
+      inversion H; subst. destruct (fold_elems_failed _ _ _ _ Ef) as [x [s' [Hin Hw]]]. exists x, s'. split; [apply co_elem; exact Hin|exact Hw].
+    - exists (JObj m), s. split; [apply co_self|exact H]. }
+  destruct (mem_str k ["not"; "additionalProperties"; "additionalItems"]); [|discriminate].
+  destruct v; try discriminate. exists (JObj m), s. split; [apply co_self|exact H].
+Qed.
+
+Lemma fold_members_failed : forall m s out sf, fold_members W m s out = Failed sf ->
+  exists k v x s', In (k, v) m /\ child_of x v /\ W x s' = Failed sf.
+Proof.
+  induction m as [|[k v] r IH]; intros s out sf H; cbn [fold_members] in H; [discriminate|].
+  destruct (child_step W k v s) as [[s1 v1]|sf1| |] eqn:Ec; try discriminate.
+  - destruct (IH _ _ _ H) as [k' [v' [x [s' [Hin [Hc Hw]]]]]]. exists k', v', x, s'. split; [right; exact Hin|split; assumption].
+  - inversion H; subst. destruct (child_step_failed _ _ _ _ Ec) as [x [s' [Hc Hw]]]. exists k, v, x, s'. split; [left; reflexivity|split; assumption].
+Qed.
+
+(* conversely a failing child is never skipped over: the fold stops at the first failure *)
+Lemma fold_elems_stops : forall l1 x l2 s out sf,
+  (forall y, In y l1 -> forall s0, exists s1 y1, W y s0 = Done (s1, y1)) ->
+  (forall s0, W x s0 = Failed sf \/ exists sf', W x s0 = Failed sf') ->
+  (exists m, x = JObj m) ->
+  exists sf', fold_elems W (l1 ++ x :: l2) s out = Failed sf'.
+Proof.
+  induction l1 as [|y r IH]; intros x l2 s out sf Hok Hx [m ->]; cbn [app fold_elems].
+  - destruct (Hx s) as [H|[sf' H]]; rewrite H; eauto.
+  - destruct y; try (apply (IH _ _ _ _ sf); [intros; apply Hok; right; assumption|exact Hx|eauto]).
+    destruct (Hok (JObj m0) (or_introl eq_refl) s) as [s1 [y1 Hy]]. rewrite Hy.
+    apply (IH _ _ _ _ sf); [intros; apply Hok; right; assumption|exact Hx|eauto].
+Qed.
+End FoldFail.
+
+Section ErrorSemantics.
+Variable E : env.
+Variable docs : list (string * json).
+Variable cwd : string.
+Variable OP : opts.
+Variable ctx_base : string.
+Variable live : option (string * json).
+Variable follow : st -> list string -> option string -> string -> json -> eres (st * json).
+
+(* strict mode: an unresolvable schema reference is an error *)
+Theorem esr_strict s parents rroot base m nref s1 sf :
+  o_cont OP = false ->
+  nuri (get_str "$ref" m) base = POk nref -> is_circular s nref parents = (s1, false) ->
+  resolve E docs cwd live s1 rroot (get_str "$ref" m) base "Schema" = Failed sf ->
+  expand_schema_ref E docs cwd OP ctx_base live follow s parents rroot base m = Failed sf.
+Proof.
+  intros Hc Hn Hci Hr. unfold expand_schema_ref. rewrite Hn. cbn [pbind]. rewrite Hci, Hr, Hc. reflexivity.
+Qed.
+
+(* continue mode: the same reference is left verbatim where it was (target missing: document or pointer) *)
+Theorem esr_continue_verbatim s parents rroot base m nref s1 sf :
+  o_cont OP = true ->
+  nuri (get_str "$ref" m) base = POk nref -> is_circular s nref parents = (s1, false) ->
+  resolve E docs cwd live s1 rroot (get_str "$ref" m) base "Schema" = Failed sf -> dfail sf = false ->
+  expand_schema_ref E docs cwd OP ctx_base live follow s parents rroot base m = Done (sf, JObj m).
+Proof.
+  intros Hc Hn Hci Hr Hd. unfold expand_schema_ref. rewrite Hn. cbn [pbind]. rewrite Hci, Hr, Hc, Hd. reflexivity.
+Qed.
+
+(* continue mode, ill-typed target (found, but a string/number/boolean/array or undecodable): the holder
+   becomes the empty schema — the behaviour of the current code, an open finding against C08 (F22) *)
+Theorem esr_continue_illtyped s parents rroot base m nref s1 sf :
+  o_cont OP = true ->
+  nuri (get_str "$ref" m) base = POk nref -> is_circular s nref parents = (s1, false) ->
+  resolve E docs cwd live s1 rroot (get_str "$ref" m) base "Schema" = Failed sf -> dfail sf = true ->
+  expand_schema_ref E docs cwd OP ctx_base live follow s parents rroot base m = Done (set_dfail sf false, JObj []).
+Proof.
+  intros Hc Hn Hci Hr Hd. unfold expand_schema_ref. rewrite Hn. cbn [pbind]. rewrite Hci, Hr, Hc, Hd. reflexivity.
+Qed.
+
+(* an error of the walk always comes from below: a failed follow, a failed resolution, or a URL / id
+   that cannot be normalised — the traversal itself never produces one *)
+Definition failure_origin (parents : list string) (sf : st) : Prop :=
+  (exists s' ps rr b t, follow s' ps rr b t = Failed sf)
+  \/ (exists s' rr ref b, resolve E docs cwd live s' rr ref b "Schema" = Failed sf /\ o_cont OP = false)
+  \/ (exists s' m b, expand_schema_ref E docs cwd OP ctx_base live follow s' parents (None) b m = Failed sf -> True).
+
+Theorem esr_failed_origin s parents rroot base m sf :
+  expand_schema_ref E docs cwd OP ctx_base live follow s parents rroot base m = Failed sf ->
+  (exists s' ps rr b t, follow s' ps rr b t = Failed sf)
+  \/ (exists s1, resolve E docs cwd live s1 rroot (get_str "$ref" m) base "Schema" = Failed sf /\ o_cont OP = false)
+  \/ nuri (get_str "$ref" m) base = PErr
+  \/ (exists s1 nref, render_kept OP ctx_base s1 nref = PErr)
+  \/ (exists s2, transitive s2 rroot base (get_str "$ref" m) = Failed sf).
+Proof.
+  unfold expand_schema_ref. intros H.
+  destruct (nuri (get_str "$ref" m) base) as [nref| |] eqn:En; cbn [pbind] in H; [|right; right; left; reflexivity|discriminate].
+  destruct (is_circular s nref parents) as [s1 circ] eqn:Ec. destruct circ.
+  - destruct (render_kept OP ctx_base s1 nref) eqn:Er; cbn [pbind] in H; try discriminate.
+    right. right. right. left. exists s1, nref. exact Er.
+  - destruct (resolve E docs cwd live s1 rroot (get_str "$ref" m) base "Schema") as [[s2 t]|sf1| |] eqn:Er; try discriminate.
+    + unfold ebind in H. destruct (transitive s2 rroot base (get_str "$ref" m)) as [rc|sf2| |] eqn:Et; try discriminate.
+      * left. exists s2, (parents ++ [nref])%list, (fst rc), (strip_frag nref), t. exact H.
+      * inversion H; subst. right. right. right. right. exists s2. exact Et.
+    + destruct (o_cont OP) eqn:Hc; [destruct (dfail sf1); discriminate|].
+      inversion H; subst. right. left. exists s1. split; [exact Er|reflexivity].
+Qed.
+End ErrorSemantics.
+
+(* ---------- skip-schemas mode (C09) ---------- *)
+Section SkipMode.
+Variable E : env.
+Variable docs : list (string * json).
+Variable cwd : string.
+Variable OP : opts.
+Variable ctx_base : string.
+Variable live : option (string * json).
+Variable follow : st -> list string -> option string -> string -> json -> eres (st * json).
+Hypothesis Hskip : o_skip OP = true.
+
+(* a schema holding a `$ref` keeps it: only its text is rebased, nothing is resolved or followed *)
+Theorem skip_keeps_ref s parents rroot base m s' j' :
+  match assoc "$ref" m with Some (JStr r) => negb (String.eqb r "") | _ => false end = true ->
+  get_str "id" m = "" ->
+  walk E docs cwd OP ctx_base live follow (JObj m) s parents rroot base = Done (s', j') ->
+  s' = s /\ exists nref txt, nuri (get_str "$ref" m) base = POk nref /\ render_rebased ctx_base s nref = POk txt
+                             /\ j' = JObj (set_member "$ref" (JStr txt) m).
+Proof.
+  intros Href Hid H. cbn [walk] in H.
+  assert (Hr1 : match assoc "$ref" m with Some (JStr r) => String.eqb r "" | _ => false end = false).
+  { destruct (assoc "$ref" m) as [[| | |r| |]|]; try discriminate; try reflexivity. apply negb_true_iff in Href. exact Href. }
+  rewrite Hr1 in H. unfold apply_id in H. rewrite Hid in H. cbn in H.
+  assert (Hh : has_ref m = true).
+  { unfold has_ref. destruct (assoc "$ref" m) as [[| | |r| |]|]; try discriminate; reflexivity. }
+  rewrite Hh, Hskip in H. cbn [negb] in H.
+  destruct (nuri (get_str "$ref" m) base) as [nref| |] eqn:En; cbn [pbind] in H; try discriminate.
+  destruct (render_rebased ctx_base s nref) as [txt| |] eqn:Er; cbn [pbind] in H; try discriminate.
+  inversion H; subst. split; [reflexivity|]. exists nref, txt. repeat split; assumption.
+Qed.
+
+(* the `definitions` section is not visited at all: it comes out exactly as it went in *)
+Lemma assoc_set_member_neq k k' v (m : list (string * json)) : k <> k' -> assoc k' (set_member k v m) = assoc k' m.
+Proof.
+  intros Hne. induction m as [|[a w] r IH]; cbn [set_member assoc].
+  - destruct (String.eqb k' k) eqn:Ek; [apply String.eqb_eq in Ek; congruence|reflexivity].
+  - destruct (String.eqb k a) eqn:Eka; cbn [assoc].
+    + apply String.eqb_eq in Eka. subst a.
+      destruct (String.eqb k' k) eqn:Ek; [apply String.eqb_eq in Ek; congruence|reflexivity].
+    + rewrite IH. reflexivity.
+Qed.
+
+Lemma section_step_keeps k f acc k' : k <> k' ->
+  match section_step k f acc, acc with
+  | Done (_, m'), Done (_, m) => assoc k' m' = assoc k' m
+  | _, _ => True
+  end.
+Proof.
+  intros Hne. unfold section_step. destruct acc as [[s m]|sf| |]; cbn [ebind]; try exact I.
+  cbn [snd fst]. destruct (assoc k m) as [[| | | | |vm]|]; try reflexivity.
+  match goal with |- match ebind ?X _ with _ => _ end => destruct X as [[s1 vm']|sf| |] end; cbn [ebind]; try exact I.
+  cbn [fst snd]. apply assoc_set_member_neq. exact Hne.
+Qed.
+
+Lemma section_step_done k f acc x : section_step k f acc = Done x -> exists y, acc = Done y.
+Proof. unfold section_step. destruct acc as [y|sf| |]; cbn [ebind]; intros H; try discriminate. exists y. reflexivity. Qed.
+
+Lemma section_step_keeps' k f acc k' s' m' : k <> k' -> section_step k f acc = Done (s', m') ->
+  exists s m, acc = Done (s, m) /\ assoc k' m' = assoc k' m.
+Proof.
+  intros Hne H. destruct (section_step_done _ _ _ _ H) as [[s m] ->].
+  exists s, m. split; [reflexivity|]. pose proof (section_step_keeps k f (Done (s, m)) k' Hne) as K. rewrite H in K. exact K.
+Qed.
+
+Theorem skip_leaves_definitions fuel root_url m s s' m' :
+  expand_spec_with E docs cwd OP ctx_base live follow fuel root_url (JObj m) s = Done (s', JObj m') ->
+  assoc "definitions" m' = assoc "definitions" m.
+Proof.
+  unfold expand_spec_with. rewrite Hskip. intros H.
+  apply ebind_done in H. destruct H as [[s4 m4] [H4 H]]. inversion H; subst s' m'. clear H.
+  apply section_step_keeps' with (k' := "definitions") in H4; [|discriminate]. destruct H4 as [s3 [m3 [H3 E4]]].
+  apply section_step_keeps' with (k' := "definitions") in H3; [|discriminate]. destruct H3 as [s2 [m2 [H2 E3]]].
+  apply section_step_keeps' with (k' := "definitions") in H2; [|discriminate]. destruct H2 as [s1 [m1 [H1 E2]]].
+  inversion H1; subst. rewrite E4, E3, E2. reflexivity.
+Qed.
+End SkipMode.
+
+(* ---------- which references are kept (C03) ---------- *)
+Lemma is_circular_true s nref parents s1 : is_circular s nref parents = (s1, true) ->
+  (mem_str nref (memo s) = true /\ s1 = s) \/ (mem_str nref parents = true /\ s1 = set_memo s (nref :: memo s)).
+Proof.
+  unfold is_circular. destruct (mem_str nref (memo s)) eqn:E1; [intros H; inversion H; left; auto|].
+  destruct (mem_str nref parents) eqn:E2; intros H; inversion H. right. auto.
+Qed.
+
+(* the memo only ever receives references that were on the parent stack at that moment *)
+Lemma is_circular_memo s nref parents s1 b : is_circular s nref parents = (s1, b) ->
+  forall x, In x (memo s1) -> In x (memo s) \/ (x = nref /\ mem_str nref parents = true).
+Proof.
+  unfold is_circular. destruct (mem_str nref (memo s)); [intros H; inversion H; subst; auto|].
+  destruct (mem_str nref parents) eqn:E; intros H; inversion H; subst; [|auto].
+  intros x [<-|Hx]; [right; auto|left; exact Hx].
+Qed.
+
+Section Kept.
+Variable E : env.
+Variable docs : list (string * json).
+Variable cwd : string.
+Variable OP : opts.
+Variable ctx_base : string.
+Variable live : option (string * json).
+Variable follow : st -> list string -> option string -> string -> json -> eres (st * json).
+
+(* a reference is kept by expandSchemaRef exactly when its canonical form is on the parent stack or in the memo of
+   circular references; it is then written as [render_kept] says, all other members of the holder unchanged *)
+Theorem esr_kept s parents rroot base m nref s1 :
+  nuri (get_str "$ref" m) base = POk nref -> is_circular s nref parents = (s1, true) ->
+  expand_schema_ref E docs cwd OP ctx_base live follow s parents rroot base m
+  = pbind s1 (render_kept OP ctx_base s1 nref) (fun txt => Done (s1, JObj (set_member "$ref" (JStr txt) m))).
+Proof. intros Hn Hc. unfold expand_schema_ref. rewrite Hn. cbn [pbind]. rewrite Hc. reflexivity. Qed.
+
+(* with AbsoluteCircularRef the kept reference is the absolute canonical URL itself *)
+Theorem render_kept_absolute s nref : o_abs OP = true -> render_kept OP ctx_base s nref = POk nref.
+Proof. intros H. unfold render_kept. rewrite H. reflexivity. Qed.
+
+(* a reference that is not circular is never kept by a successful strict expansion: the result is what following its
+   target gives *)
+Theorem esr_followed s parents rroot base m nref s1 s2 t rc :
+  nuri (get_str "$ref" m) base = POk nref -> is_circular s nref parents = (s1, false) ->
+  resolve E docs cwd live s1 rroot (get_str "$ref" m) base "Schema" = Done (s2, t) ->
+  transitive s2 rroot base (get_str "$ref" m) = Done rc ->
+  expand_schema_ref E docs cwd OP ctx_base live follow s parents rroot base m
+  = follow s2 (parents ++ [nref])%list (fst rc) (strip_frag nref) t.
+Proof. intros Hn Hc Hr Ht. unfold expand_schema_ref. rewrite Hn. cbn [pbind]. rewrite Hc, Hr. cbn [ebind]. rewrite Ht. reflexivity. Qed.
+End Kept.
